@@ -30,7 +30,10 @@ PROPS = {
     "C04": {
         "module": "Cdecao.Props.C04",
         "theorems": ["Props.C04_no_deadlock", "Props.C04_done_means_finished", "Props.C04_stats_step", "Props.C04_bounded_work",
-                     "Props.C04_stats_reach", "Props.C04_panicked", "Props.C04_stats_at_done", "Props.C04_stats_at_finished", "Props.C04_done_absorbing", "Props.C04_join"],
+                     "Props.C04_stats_reach", "Props.C04_panicked", "Props.C04_stats_at_done", "Props.C04_stats_at_finished", "Props.C04_done_absorbing", "Props.C04_join",
+                     "Props.C04_caobab_wf", "Props.C04_caobab_budget", "Props.C04_caobab_run_bound", "Props.C04_caobab_gen_bound",
+                     "Props.C04_terminates", "Props.C04_terminates_maximal", "Props.C04_terminates_infinite", "Props.C04_terminates_spurious",
+                     "Props.C04_terminates_optimal", "Props.C04_caobab_terminates", "Props.C04_caobab_no_infinite_run"],
         "streams": ["engine", "solve", "engine-exhaustive"],
     },
     "C05": {
@@ -86,7 +89,8 @@ PROPS = {
     },
     "C15": {
         "module": "Cdecao.Props.C15",
-        "theorems": ["Props.C15_accept_sound", "Props.C15_missing_member"],
+        "theorems": ["Props.C15_accept_sound", "Props.C15_missing_member", "Props.C15_rooms_str", "Props.C15_rooms_str_refuse", "Props.C15_rooms_file",
+                     "Props.C15_rooms_file_refuse", "Props.C15_rooms_kind", "Props.splitComma_spec", "Props.parseUsize_shape"],
         "streams": ["cli-malformed", "cdedb-read"],
     },
     "C16": {
@@ -107,7 +111,8 @@ PROPS = {
     "C19": {
         "module": "Cdecao.Props.C19",
         "theorems": ["Props.C19_no_hang", "Props.C19_bounded_work", "Props.C19_dead_absorbing", "Props.C19_failure_reported", "Props.C19_join_not_stuck",
-                     "Props.C19_outcome_final", "Props.C19_panicked_pos"],
+                     "Props.C19_outcome_final", "Props.C19_panicked_pos", "Props.C19_terminates", "Props.C19_terminates_dead", "Props.C19_terminates_dying",
+                     "Props.C19_terminates_verdict", "Props.C19_terminates_no_panic"],
         "streams": ["engine-fault", "engine-exhaustive"],
     },
     "C20": {
@@ -131,7 +136,7 @@ LEVELS = {
             "note": _NODE + " The effective size is the documented formula as evaluated in f32 (the paired-run generator includes the f32/f64 corner)."},
     "C03": {"text": "Theorem Props.C03: two finished runs of the engine model on a bounded tree agree on found/score for all thread counts and schedules. Props.C03_caobab discharges the premise for the caobab node solver (valid instances outside the F1 class, with or without rooms, any float behaviour); inside the F1 class the property is FALSE of the code (known finding F11: a child's relaxation can exceed its parent's, so the score depends on the schedule; Props.C03_F11_not_bounded proves `¬ Bounded` of the model on a 3-course witness with the node results evaluated by the kernel, and the witness is replayed on the real code under seeded schedules on every run); a schedule-dependent verdict is the known finding only if the instance is in the class AND the model's own tree is not Bounded; anything else is a violation.",
             "note": _ENG + " Partial only inside the F1 class (instructors with own choices of non-fixed courses), where `Bounded` is not proved."},
-    "C04": {"text": "Theorems Props.C04_no_deadlock, C04_done_means_finished, C04_stats_step, C04_bounded_work C04_exactly_once_at_done (ghost history: at AllDone the multiset of generated subproblems = solved ⊎ bounded, none twice, none lost, and the counters are the lengths), C04_run_bound_init (a run from init with at most s wake events has at most W root + 3T + 3(T² + s) non-wake events) and C04_stats_at_done (at AllDone: executed = no-solution + infeasible + feasible and generated = executed + bound, for every reachable run of the product system), C04_done_absorbing, over the engine model, all T >= 1 and schedules incl. spurious wake-ups; every real run under the shim is replayed through the model with all six counters compared, and the shim's deadlock detector and step budget watch the real code.",
+    "C04": {"text": "Theorems Props.C04_no_deadlock, C04_done_means_finished, C04_stats_step, C04_bounded_work C04_exactly_once_at_done (ghost history: at AllDone the multiset of generated subproblems = solved ⊎ bounded, none twice, none lost, and the counters are the lengths), C04_run_bound_init (a run from init with at most s wake events has at most W root + 3T + 3(T² + s) non-wake events) and C04_stats_at_done (at AllDone: executed = no-solution + infeasible + feasible and generated = executed + bound, for every reachable run of the product system), C04_done_absorbing, over the engine model; the budget hypothesis is discharged for caobab by C04_caobab_wf / C04_caobab_budget / C04_caobab_run_bound / C04_caobab_gen_bound (for EVERY instance and room arithmetic the child relation of run_bab_node's model is well-founded, treeSize is defined by well-founded recursion, 5·treeSize is a budget, every run has at most 5·treeSize + 3T + 3(T²+s) non-wake events and generates at most treeSize subproblems); TERMINATION (Engine/Terminate.lean): C04_terminates (from every reachable configuration some wake-free continuation finishes within the bound and EVERY wake-free continuation extends to a finishing one within the same bound — no scheduler choice among non-wake events avoids termination), C04_terminates_maximal (a run can only stop when all workers have stopped), C04_terminates_infinite / C04_terminates_spurious (an infinite run contains infinitely many wake-ups, and — with notify_one-caused wake-ups counted by a ghost layer and bounded by the number of generated subproblems — infinitely many SPURIOUS ones), C04_terminates_optimal (the finishing configuration holds an optimal incumbent), C04_caobab_terminates / C04_caobab_no_infinite_run (the same for caobab::solve with no hypothesis on the instance); all T >= 1 and schedules incl. spurious wake-ups; every real run under the shim is replayed through the model with all six counters compared, and the shim's deadlock detector and step budget watch the real code.",
             "note": _ENG},
     "C05": {"text": "Props.C05_consistent (assembled: reader ∘ any HardOK assignment ∘ writer): for every export the reader accepts and every assignment satisfying the hard constraints of the problem that was read, the written registrations/courses objects name only registrations of the export with status participant in the selected part (never an ignored pre-assigned one) and only courses offered in the selected track (not ignored-cancelled), the assigned course is written as taking place and was chosen or is instructed per the EXPORT's choice list, every course written as taking place has min_size <= new + ignored attendees and (new = 0 or new + ignored <= max_size) in terms of the export's sizes with defaults, and nobody is assigned to a course written as cancelled. HardOK of the solver's output is C01 (Props.C01_C08_cde for the CdE path). Writer theorems Props.C05_regs / C05_courses / C05_no_cancelled_assignment over the model of io::cdedb::write; end to end through the REAL binary: generated exports x option combinations -> import file -> (a) independent reference model of the partial import + the clauses of C05 in database ids (Python), (b) the Lean models: reader (CD.read), decoded assignment, writer equality, HardOK and RoomOK evaluated by the driver on the problem the model reads.",
             "note": "io/cdedb.rs reader and writer are modelled by CD.read / CD.writeRegs / CD.writeCourses from the serde_json value on (bytes -> value is serde_json's). Distinctness of the course keys as parsed numbers (`NodupKeys`, e.g. no keys 7 and 07) is a hypothesis of clause (e) and of the by-key counts; the real database never produces such keys."},
@@ -153,14 +158,14 @@ LEVELS = {
             "note": "Model CD.read; the relation Agree is phrased by equality of views, the nested set-a-member corollaries are covered by congruence lemmas and a worked example. Determinism of the engine with one worker given the same problem is by the engine model being a function of the pop policy (BinaryHeap order is deterministic for equal inputs; trusted)."},
     "C14": {"text": "Theorems Props.C14_entries / C14_entries_sorted (the listing of a course = exactly the participants assigned to it, in order, flagged iff instructor) and C14_array (one entry per participant, null or valid index, all T and schedules); the real binary's --print output is compared byte for byte with the Lean rendering LM.render, and the output file's array/keys are checked, incl. hidden names, non-ASCII names and a stale longer output file.",
             "note": "io.rs format_assignment is modelled by LM.render; the possible-rooms strings are taken from the real output and checked by C18."},
-    "C15": {"text": "Theorem Props.C15_accept_sound: whatever the simple-format reader + validation accepts is an instance with all indices in range, num_min <= num_max and at least one participant (the premises of the solver's totality theorem C10); the real binary is run on single-field corruptions of valid simple and CdE documents, bad option values and raw garbage: exit status in {64,65,66,2}, no 'panicked', no output file; accept/refuse is compared with the Lean models SM.accepts and CD.read.",
-            "note": "From the JSON value on; bytes -> value (serde_json), option parsing (clap) are only enumerated. serde's positional (array) form of structs is not modelled and not generated."},
+    "C15": {"text": "Theorem Props.C15_accept_sound: whatever the simple-format reader + validation accepts is an instance with all indices in range, num_min <= num_max and at least one participant (the premises of the solver's totality theorem C10); the real binary is run on single-field corruptions of valid simple and CdE documents, bad option values and raw garbage: exit status in {64,65,66,2}, no 'panicked', no output file; accept/refuse is compared with the Lean models SM.accepts and CD.read. The two room inputs are modelled too (RI.parseRoomsStr for --rooms, RI.kindsOf for --rooms-file, from the JSON value on): theorems C15_rooms_str / C15_rooms_str_refuse / C15_rooms_file / C15_rooms_file_refuse / C15_rooms_kind (all-or-nothing: accepted ⇒ one entry per item, each the reading of that item and within usize; one bad item refuses the whole input; the split loses or merges nothing, splitComma_spec) and accept/refuse correspondence with the real binary on 20 kinds of string deviations and 24 kinds of file deviations.",
+            "note": "From the JSON value on; bytes -> value (serde_json), option parsing (clap) are only enumerated. The rooms file goes through serde's derived visitor, whose positional (array of exactly three) form of a room kind is modelled and generated; duplicate member names inside one JSON object are not generated."},
     "C16": {"text": "Theorems Props.C16 / C16_faults about the output stage's decision logic; the fault matrix {ok, ENOENT, EISDIR, ENAMETOOLONG, ENOTDIR, /dev/full, RLIMIT_FSIZE partial write, stale longer file} x {simple, cde} x {--print} is run exhaustively on the real binary and compared with the model (exit status, listing still printed, file complete iff exit 0).",
             "note": "Runtime behaviour (which errno, short writes) cannot be exhibited by the model: proof of the decision logic + fault enumeration (partial by nature). Running as root, a read-only directory is not a fault."},
     "C18": {"text": "Theorems Props.C18_sound / C18_nonempty / C18_dedup for the double loop RS.possible under ANY sorting permutation of equally sized courses; exact correspondence (strings) of get_course_room_size_list / get_course_room_kind_names with the Lean model given the rank order the real unstable sort produced, on room-feasible assignments with shuffled room lists, duplicate capacities, fewer/more rooms than courses, quantity-0 kinds; the executable specification (usable room = large enough + remaining courses still fit) is evaluated on every listing, also on the real binary's --print output.",
             "note": "Plumbing (re-indexing by course, kind names) is in the executable model RM.* and tied by correspondence; its Lean proof is in progress."},
-    "C19": {"text": "Theorems Props.C19_no_hang / C19_bounded_work: with panicking node solvers anywhere in the tree, all T >= 1 and schedules, some non-wake step is enabled until every worker is done or dead. Props.C19_failure_reported: once a worker is dead it stays dead, the join loop of bab::solve (modelled by `outcome`) can never report success, the system is not stuck before everybody finished, and at AllFinished the join loop reports the failure. Real runs with one failing node at random positions under seeded schedules: no deadlock, panic propagated, trace replays through the model.",
-            "note": _ENG + " Eventual termination needs a fairness assumption on the scheduler (potential argument C19_bounded_work); the OS scheduler's fairness is trusted."},
+    "C19": {"text": "Theorems Props.C19_no_hang / C19_bounded_work: with panicking node solvers anywhere in the tree, all T >= 1 and schedules, some non-wake step is enabled until every worker is done or dead. Props.C19_failure_reported: once a worker is dead it stays dead, the join loop of bab::solve (modelled by `outcome`) can never report success, the system is not stuck before everybody finished, and at AllFinished the join loop reports the failure. Props.C19_terminates / C19_terminates_dead / C19_terminates_dying / C19_terminates_verdict: with failing subproblems anywhere, every wake-free continuation extends within W root + 3T + 3(T²+s) steps to a configuration in which every worker has stopped, and if some worker is dying or dead the join loop there panics (outcome = some true): the search fails, it does not hang; C19_terminates_no_panic: without a panicking subproblem no worker is ever lost. Real runs with one failing node at random positions under seeded schedules: no deadlock, panic propagated, trace replays through the model.",
+            "note": _ENG + " Termination is proved for every schedule with finitely many spurious wake-ups (an infinite run needs infinitely many of them); that the OS eventually schedules an enabled thread (weak fairness) is trusted."},
     "C20": {"text": "Theorems Props.C20_*: binom = choose; for 1 <= k <= n exactly choose n k selections, the i-th strictly increasing, below n, of rank i; stops after the last; empty for k = 0 or k > n; size hint exact. All (n,k) with n <= 11 (thorough 18) compared exhaustively with the real iterator.",
             "note": "util.rs is modelled by S.succ/S.iterNext/S.sizeHint/S.binom (recursion on the suffix instead of the in-place loop); the two are tied by the exhaustive stream."},
 }
